@@ -80,6 +80,30 @@ pub fn install_panic_hook() {
 
 /// Normalise a panic message: digits collapsed, truncated.
 pub fn norm_msg(msg: &str) -> String {
+    // drop quoted input echoes (`...` and '...') so that one defect has one signature
+    let mut cleaned = String::new();
+    let mut quote: Option<char> = None;
+    for ch in msg.chars() {
+        match quote {
+            Some(q) => {
+                if ch == q {
+                    quote = None;
+                    cleaned.push('_');
+                }
+            }
+            None => {
+                if ch == '`' {
+                    quote = Some('`');
+                } else {
+                    cleaned.push(ch);
+                }
+            }
+        }
+    }
+    let msg: &str = match cleaned.find("; it is inside") {
+        Some(p) => &cleaned[..p],
+        None => &cleaned,
+    };
     let mut out = String::new();
     let mut last_digit = false;
     for ch in msg.chars() {
